@@ -8,6 +8,9 @@
    Repaired = all of them = /repo HEAD; the main theorems are about it (stated for every variant that has the flags
    a theorem needs).  NoHACheck / Unreserved / ReserveOnly / GuardOnly / Defective lack some repairs and only appear in the `_refuted` theorems, which record
    what each fix removed.
+   WHICH free id a PADR gets is not constrained by the property: PADR / PBEGIN carry a [choice] — Policy (HEAD's
+   sequential counter), or an observed answer (Chose c / Refused) that the step accepts only when admissible.  Every
+   theorem that quantifies over ops / histories covers every choice.
    reserving v = id-0 guard, reservation and HA check present; owning v = reserving v and owner check present.
    alive s x = x is in sidIndex or sessions, or has been built by a handlePADR that has not indexed it yet. *)
 From Coq Require Import List ZArith NArith Bool Lia Arith.
@@ -112,6 +115,24 @@ Example C04_history_independence_nonvacuous :
 Proof. exact history_independence_nonvacuous. Qed.
 Print Assumptions C04_history_independence_nonvacuous.
 
+(* the property constrains ACCEPTANCE.  Soundness therefore holds for EVERY validator whose verdicts are
+   admissible: equal to [validate] on Ethernet tuples (6-byte MAC), and accepting no more than [validate] on the
+   others (an implementation may refuse cookies for non-Ethernet addresses) *)
+Theorem C04_admissible_validator_sound : forall H (val' : Z -> Z -> bytes -> tuple -> bool),
+  (forall ttl now c t, admissible_verdict t (validate H ttl now c t) (val' ttl now c t) = true) ->
+  forall ttl now c t issued,
+  (firstn 32 c = H (macd t c) -> In (macd t c) (map enc_issue issued)) ->
+  Forall wf_issue issued -> wf_tuple t ->
+  val' ttl now c t = true ->
+  exists ts, In (t, ts) issued /\ (now - Z.of_N ts * ns_per_s <= ttl)%Z /\ skipn 32 c = put32 ts.
+Proof. exact admissible_validator_sound. Qed.
+Print Assumptions C04_admissible_validator_sound.
+
+Theorem C04_admissible_verdict_ethernet : forall t m i,
+  ethernet_tuple t = true -> admissible_verdict t m i = true -> i = m.
+Proof. exact admissible_verdict_ethernet. Qed.
+Print Assumptions C04_admissible_verdict_ethernet.
+
 (* ---------------------------------------------------------------- tags *)
 Theorem C04_parse_tags_terminates : forall p, parse_tags p <> OutOfFuel /\ parse_tags p <> Base.Panic.
 Proof. exact parse_tags_terminates. Qed.
@@ -129,29 +150,29 @@ Print Assumptions C04_padi_padr_roundtrip.
 (* ---------------------------------------------------------------- admission *)
 (* a PADS / a new session only for a PADR whose AC-Cookie validates for the sender's tuple
    (every variant, i.e. also the code as found) *)
-Theorem C04_padr_needs_cookie : forall v e s t p s' sid uid,
-  step v e s (PADR t p) = Some (s', OPads sid uid) ->
+Theorem C04_padr_needs_cookie : forall v e s t p oc s' sid uid,
+  step v e s (PADR t p oc) = Some (s', OPads sid uid) ->
   exists tg, parse_tags p = Ok tg /\
     validate (e_H e) (e_ttl e) (e_now_ns e) (t_cookie tg) t = true /\ e_grp e t = true.
 Proof. exact padr_needs_cookie. Qed.
 Print Assumptions C04_padr_needs_cookie.
 
 (* ... and a PADR without such a cookie changes nothing at all *)
-Theorem C04_padr_rejected_no_state : forall v e s t p s' r, step v e s (PADR t p) = Some (s', r) ->
+Theorem C04_padr_rejected_no_state : forall v e s t p oc s' r, step v e s (PADR t p oc) = Some (s', r) ->
   (forall tg, parse_tags p = Ok tg -> validate (e_H e) (e_ttl e) (e_now_ns e) (t_cookie tg) t = false) ->
   s' = s /\ r = ONone.
 Proof. exact padr_rejected_no_state. Qed.
 Print Assumptions C04_padr_rejected_no_state.
 
 (* the same two facts for a PADR that is interleaved with others (its first half, up to allocateSessionID) *)
-Theorem C04_pbegin_needs_cookie : forall v e s t p s' sid uid,
-  step v e s (PBEGIN t p) = Some (s', OPend sid uid) ->
+Theorem C04_pbegin_needs_cookie : forall v e s t p oc s' sid uid,
+  step v e s (PBEGIN t p oc) = Some (s', OPend sid uid) ->
   exists tg, parse_tags p = Ok tg /\
     validate (e_H e) (e_ttl e) (e_now_ns e) (t_cookie tg) t = true /\ e_grp e t = true.
 Proof. exact pbegin_needs_cookie. Qed.
 Print Assumptions C04_pbegin_needs_cookie.
 
-Theorem C04_pbegin_rejected_no_state : forall v e s t p s' r, step v e s (PBEGIN t p) = Some (s', r) ->
+Theorem C04_pbegin_rejected_no_state : forall v e s t p oc s' r, step v e s (PBEGIN t p oc) = Some (s', r) ->
   (forall tg, parse_tags p = Ok tg -> validate (e_H e) (e_ttl e) (e_now_ns e) (t_cookie tg) t = false) ->
   s' = s /\ r = ONone.
 Proof. exact pbegin_rejected_no_state. Qed.
@@ -159,10 +180,10 @@ Print Assumptions C04_pbegin_rejected_no_state.
 
 (* in ANY table state (any earlier history, this very PADR already answered or not) a PADR whose cookie
    has outlived the lifetime creates nothing, in every variant *)
-Theorem C04_padr_expired_no_state : forall v e s t p tg a b c4 d s' r,
+Theorem C04_padr_expired_no_state : forall v e s t p oc tg a b c4 d s' r,
   parse_tags p = Ok tg -> skipn 32 (t_cookie tg) = [a; b; c4; d] ->
   (e_ttl e < e_now_ns e - Z.of_N (be32 a b c4 d) * ns_per_s)%Z ->
-  step v e s (PADR t p) = Some (s', r) -> s' = s /\ r = ONone.
+  step v e s (PADR t p oc) = Some (s', r) -> s' = s /\ r = ONone.
 Proof. exact padr_expired_no_state. Qed.
 Print Assumptions C04_padr_expired_no_state.
 
@@ -170,20 +191,20 @@ Print Assumptions C04_padr_expired_no_state.
    address and VLAN tags.  Premise 1 is H_mac_unforgeable for the ONE (message, tag) pair this PADR presents: the
    tag is the first 32 bytes of the AC-Cookie ParseTags extracts, the message is the one Validate recomputes from
    the sender's tuple and the cookie's timestamp bytes.  Nothing is assumed about other messages or tags. *)
-Theorem C04_admission : forall v e s t p s' sid uid issued,
+Theorem C04_admission : forall v e s t p oc s' sid uid issued,
   (forall tg, parse_tags p = Ok tg -> firstn 32 (t_cookie tg) = e_H e (macd t (t_cookie tg)) ->
               In (macd t (t_cookie tg)) (map enc_issue issued)) ->
   Forall wf_issue issued -> wf_tuple t ->
-  step v e s (PADR t p) = Some (s', OPads sid uid) ->
+  step v e s (PADR t p oc) = Some (s', OPads sid uid) ->
   exists ts, In (t, ts) issued /\ (e_now_ns e - Z.of_N ts * ns_per_s <= e_ttl e)%Z.
 Proof. exact admission. Qed.
 Print Assumptions C04_admission.
 
-Theorem C04_admission_interleaved : forall v e s t p s' sid uid issued,
+Theorem C04_admission_interleaved : forall v e s t p oc s' sid uid issued,
   (forall tg, parse_tags p = Ok tg -> firstn 32 (t_cookie tg) = e_H e (macd t (t_cookie tg)) ->
               In (macd t (t_cookie tg)) (map enc_issue issued)) ->
   Forall wf_issue issued -> wf_tuple t ->
-  step v e s (PBEGIN t p) = Some (s', OPend sid uid) ->
+  step v e s (PBEGIN t p oc) = Some (s', OPend sid uid) ->
   exists ts, In (t, ts) issued /\ (e_now_ns e - Z.of_N ts * ns_per_s <= e_ttl e)%Z.
 Proof. exact admission_pend. Qed.
 Print Assumptions C04_admission_interleaved.
@@ -192,17 +213,17 @@ Example C04_admission_nonvacuous :
   (forall tg, parse_tags padrOne = Ok tg -> firstn 32 (t_cookie tg) = oneH (macd tA (t_cookie tg)) ->
               In (macd tA (t_cookie tg)) (map enc_issue [(tA, 1000)])) /\
   Forall wf_issue [(tA, 1000)] /\ wf_tuple tA /\
-  (exists s', step Repaired envOne st0 (PADR tA padrOne) = Some (s', OPads 1 0)) /\
+  (exists s', step Repaired envOne st0 (PADR tA padrOne Policy) = Some (s', OPads 1 0)) /\
   oneH (enc_issue (tB, 1000)) <> firstn 32 (generate oneH 1000 tA) /\
-  (exists s', step Repaired envOne st0 (PADR tB padrOne) = Some (s', ONone)).
+  (exists s', step Repaired envOne st0 (PADR tB padrOne Policy) = Some (s', ONone)).
 Proof. exact admission_nonvacuous. Qed.
 Print Assumptions C04_admission_nonvacuous.
 
 (* every session object that becomes alive comes from a PADR whose cookie validated (whole, or its first half),
    from a start-up restore, or from the HA peer's checkpoint; in every variant *)
 Theorem C04_sessions_only_from_padr : forall v e s o s' r x, step v e s o = Some (s', r) -> alive s' x ->
-  alive s x \/ (exists p, (o = PADR (s_tup x) p /\ r = OPads (s_sid x) (s_uid x)) \/
-                          (o = PBEGIN (s_tup x) p /\ r = OPend (s_sid x) (s_uid x))) \/
+  alive s x \/ (exists p oc, (o = PADR (s_tup x) p oc /\ r = OPads (s_sid x) (s_uid x)) \/
+                             (o = PBEGIN (s_tup x) p oc /\ r = OPend (s_sid x) (s_uid x))) \/
   (exists a, o = RESTORE (s_sid x) (s_tup x) a \/ o = HASYNC (s_sid x) (s_tup x) a).
 Proof. exact step_new_alive. Qed.
 Print Assumptions C04_sessions_only_from_padr.
@@ -238,16 +259,16 @@ Theorem C04_race_refuted : forall v e s tA tB pA pB tgA tgB k,
   parse_tags pB = Ok tgB -> validate (e_H e) (e_ttl e) (e_now_ns e) (t_cookie tgB) tB = true -> e_grp e tB = true ->
   tA <> tB ->
   exists s4 x y,
-    run v e s [PBEGIN tA pA; PBEGIN tB pB; PCOMMIT (ctr s); PCOMMIT (N.succ (ctr s))] =
+    run v e s [PBEGIN tA pA Policy; PBEGIN tB pB Policy; PCOMMIT (ctr s); PCOMMIT (N.succ (ctr s))] =
       Some (s4, [OPend k (ctr s); OPend k (N.succ (ctr s)); OPads k (ctr s); OPads k (N.succ (ctr s))]) /\
     by_tup s4 !! tA = Some x /\ by_tup s4 !! tB = Some y /\ x <> y /\ s_sid x = k /\ s_sid y = k.
 Proof. exact race_last_free_id. Qed.
 Print Assumptions C04_race_refuted.
 
 Example C04_interleaving_nonvacuous :
-  match run Repaired env0 st0 [PBEGIN tA (add_tag TagACCookie (generate toyH 1000 tA));
-                               PBEGIN tB (add_tag TagACCookie (generate toyH 1000 tB)); PCOMMIT 1; PCOMMIT 0] with
-  | Some (s, outs) => outs = [OPend 1 0; OPend 2 1; OPads 2 1; OPads 1 0] /\ pend s = []
+  match run Repaired env0 st0 [PBEGIN tA (add_tag TagACCookie (generate toyH 1000 tA)) Policy;
+                               PBEGIN tB (add_tag TagACCookie (generate toyH 1000 tB)) (Chose 7); PCOMMIT 1; PCOMMIT 0] with
+  | Some (s, outs) => outs = [OPend 1 0; OPend 7 1; OPads 7 1; OPads 1 0] /\ pend s = []
   | None => False
   end.
 Proof. exact interleaving_nonvacuous. Qed.
@@ -287,6 +308,36 @@ Example C04_hasync_nonvacuous :
 Proof. exact hasync_repaired. Qed.
 Print Assumptions C04_hasync_nonvacuous.
 
+(* the id a PADR gets is a free choice: ANY id in 1..65535 that is neither indexed nor reserved is installed ... *)
+Theorem C04_sid_any_admissible_choice : forall v e s t p tg c, parse_tags p = Ok tg ->
+  validate (e_H e) (e_ttl e) (e_now_ns e) (t_cookie tg) t = true -> e_grp e t = true ->
+  0 < c < 65536 -> id_used v s c = false ->
+  exists s', step v e s (PADR t p (Chose c)) = Some (s', OPads c (ctr s)) /\
+    by_sid s' !! c = Some {| s_uid := ctr s; s_sid := c; s_tup := t |}.
+Proof. exact padr_chosen. Qed.
+Print Assumptions C04_sid_any_admissible_choice.
+
+(* ... an id that is 0, out of range, indexed or reserved is not a step at all (the check reports it) ... *)
+Theorem C04_sid_inadmissible_choice : forall v e s t p tg c, parse_tags p = Ok tg ->
+  validate (e_H e) (e_ttl e) (e_now_ns e) (t_cookie tg) t = true -> e_grp e t = true ->
+  c = 0 \/ 65536 <= c \/ id_used v s c = true -> step v e s (PADR t p (Chose c)) = None.
+Proof. exact padr_choice_inadmissible. Qed.
+Print Assumptions C04_sid_inadmissible_choice.
+
+(* ... a refusal is admissible only when no id is free ... *)
+Theorem C04_sid_refusal_needs_full : forall v e s t p tg j, parse_tags p = Ok tg ->
+  validate (e_H e) (e_ttl e) (e_now_ns e) (t_cookie tg) t = true -> e_grp e t = true ->
+  0 < j < 65536 -> id_used v s j = false -> step v e s (PADR t p Refused) = None.
+Proof. exact padr_refusal_inadmissible. Qed.
+Print Assumptions C04_sid_refusal_needs_full.
+
+(* ... and /repo HEAD's sequential counter is one of the admissible policies *)
+Theorem C04_sid_policy_admissible : forall v s sid n', 0 < norm_next v (next s) < 65536 -> allocate v s = Ok (sid, n') ->
+  (sid <> 0 -> alloc_choice v s (Chose sid) = Ok (sid, next s)) /\
+  (sid = 0 -> alloc_choice v s Refused = Ok (0, next s)).
+Proof. exact policy_is_admissible. Qed.
+Print Assumptions C04_sid_policy_admissible.
+
 (* the invariant behind it is inductive from any table that satisfies it *)
 Theorem C04_table_invariant : forall v e s o s' r, reserving v -> Inv s -> step v e s o = Some (s', r) -> Inv s'.
 Proof. exact step_Inv. Qed.
@@ -297,15 +348,15 @@ Print Assumptions C04_table_invariant.
 Theorem C04_sid_alloc_complete : forall v e s t p tg, reserving v -> Inv s -> parse_tags p = Ok tg ->
   validate (e_H e) (e_ttl e) (e_now_ns e) (t_cookie tg) t = true -> e_grp e t = true ->
   (exists j, 0 < j < 65536 /\ id_used v s j = false) ->
-  exists s' sid, step v e s (PADR t p) = Some (s', OPads sid (ctr s)) /\ 0 < sid < 65536 /\
+  exists s' sid, step v e s (PADR t p Policy) = Some (s', OPads sid (ctr s)) /\ 0 < sid < 65536 /\
     id_used v s sid = false /\ by_sid s' !! sid = Some {| s_uid := ctr s; s_sid := sid; s_tup := t |}.
 Proof. exact padr_creates_when_room. Qed.
 Print Assumptions C04_sid_alloc_complete.
 
 (* id space full: no session, indexes untouched *)
-Theorem C04_sid_full : forall v e s t p s' r, reserving v -> Inv s ->
+Theorem C04_sid_full : forall v e s t p oc s' r, reserving v -> Inv s ->
   (forall j, 0 < j < 65536 -> id_used v s j = true) ->
-  step v e s (PADR t p) = Some (s', r) ->
+  step v e s (PADR t p oc) = Some (s', r) ->
   r = ONone /\ by_sid s' = by_sid s /\ by_tup s' = by_tup s /\ pend s' = pend s.
 Proof. exact padr_full_repaired. Qed.
 Print Assumptions C04_sid_full.
@@ -314,7 +365,7 @@ Print Assumptions C04_sid_full.
 Theorem C04_sid_full_refuted : forall v e s t p tg, v_sid_guard v = false -> 0 < next s < 65536 ->
   (forall j, 0 < j < 65536 -> id_used v s j = true) ->
   parse_tags p = Ok tg -> validate (e_H e) (e_ttl e) (e_now_ns e) (t_cookie tg) t = true -> e_grp e t = true ->
-  exists s', step v e s (PADR t p) = Some (s', OPads 0 (ctr s)) /\
+  exists s', step v e s (PADR t p Policy) = Some (s', OPads 0 (ctr s)) /\
     by_sid s' !! 0 = Some {| s_uid := ctr s; s_sid := 0; s_tup := t |}.
 Proof. exact padr_full_defective. Qed.
 Print Assumptions C04_sid_full_refuted.
